@@ -11,7 +11,7 @@ import numpy as np
 from numpy import array
 
 ALL_OPS = ["s", "v", "u", "Ls", "L", "Lu", "Q", "add", "sub", "mul", "div", "addc", "subc", "mulc", "divc", "offc",
-           "adda", "suba", "mula", "diva", "offa", "neg", "restr", "lrestr", "lincomp", "concat", "normalize",
+           "adda", "suba", "mula", "diva", "offa", "neg", "restr", "rrestr", "lrestr", "lincomp", "concat", "normalize",
            "taylor1", "taylor2", "cvx", "aggmax", "aggsq", "aggpos"]
 LEAVES = {"s", "v", "u", "Ls", "L", "Lu", "Q"}
 
@@ -95,6 +95,7 @@ class Replayer:
         from gemseo.core.mdo_functions.mdo_function import MDOFunction
         from gemseo.core.mdo_functions.mdo_linear_function import MDOLinearFunction
         from gemseo.core.mdo_functions.mdo_quadratic_function import MDOQuadraticFunction
+        from gemseo.core.mdo_functions.restricted_function import RestrictedFunction
         from gemseo.core.mdo_functions.taylor_polynomials import (compute_linear_approximation,
                                                                     compute_quadratic_approximation)
 
@@ -148,6 +149,8 @@ class Replayer:
         elif op == "restr":
             n_child = self.n_inputs(args[0])
             f = FunctionRestriction(array([p[0]]), array([pf[1]]), n_child, k[0], name="restriction")
+        elif op == "rrestr":
+            f = RestrictedFunction(k[0], array([p[0]]), array([pf[1]]))
         elif op == "lrestr":
             f = k[0].restrict(array([p[0]]), array([pf[1]]))
         elif op == "lincomp":
@@ -181,7 +184,7 @@ class Replayer:
         op, args, p = t
         if op in LEAVES:
             return 2
-        if op in ("restr", "lrestr"):
+        if op in ("restr", "rrestr", "lrestr"):
             return self.n_inputs(args[0]) - 1
         if op == "lincomp":
             return p[1]
@@ -221,7 +224,7 @@ class Replayer:
             sig["linear_operand"] = any(s.startswith("linear") for s in sig["operands"])
             # the operand declares (attribute `dim`) another output dimension than it has
             sig["operand_dim_declared_wrong"] = any(c.obj.dim not in (0, len(e[2])) for c, e in zip(node.kids, exp_kids))
-            if op == "lincomp":
+            if op in ("lincomp", "rrestr"):
                 try:
                     sig["operand_jacobian_2d"] = np.ndim(node.kids[0].obj.jac(exp_kids[0][1].copy())) == 2
                 except Exception:  # noqa: BLE001
@@ -236,106 +239,128 @@ class Replayer:
         return sig
 
     # ------------------------------------------------------------------ the check of one instance
+    @staticmethod
+    def node_at(root: Node, path):
+        for k in path:
+            root = root.kids[k - 1]
+        return root
+
+    @staticmethod
+    def entries(pt, ev, ej, obs):
+        """Expectations of the specification: [(path, point, value, Jacobian)] for every proper subtree at every
+        point where it is evaluated (post-order), and for the tree itself."""
+        sub = [(tuple(o[0]), vec(o[1]), vec(o[2]), mat(o[3], len(o[1]))) for o in obs]
+        root = ((), array([float(c) for c in pt]), vec(ev), mat(ej, len(pt)))
+        return sub, root
+
+    def matches(self, got, e):
+        return self.same(got[0], e[2]) and self.same(got[1], e[3])
+
     def check_case(self, tree, pt, ev, ej, obs):
-        x = [float(c) for c in pt]
-        n = len(x)
-        want_v, want_j = vec(ev), mat(ej, n)
-        kids_exp = [(vec(o[1]), vec(o[2]), mat(o[3], len(o[1]))) for o in obs if len(o[0]) == 1]
+        sub, top = self.entries(pt, ev, ej, obs)
         try:
             root = self.build(tree)
-            before = [self.observe(c, e[0]) for c, e in zip(root.kids, kids_exp)]
-            v, j = self.observe(root, x)
-            v2 = np.atleast_1d(np.asarray(root.obj.evaluate(array(x)), dtype=float)).ravel()
-            after = [self.observe(c, e[0]) for c, e in zip(root.kids, kids_exp)]
-            ok = (self.same(v, want_v) and self.same(j, want_j) and self.same(v2, want_v)
-                  and all(self.same(a[0], e[1]) and self.same(a[1], e[2]) for a, e in zip(after, kids_exp))
-                  and all(self.same(a[0], e[1]) and self.same(a[1], e[2]) for a, e in zip(before, kids_exp)))
+            before = [self.observe(self.node_at(root, e[0]), e[1]) for e in sub]
+            got = self.observe(root, top[1])
+            again = np.atleast_1d(np.asarray(root.obj.evaluate(top[1].copy()), dtype=float)).ravel()
+            after = [self.observe(self.node_at(root, e[0]), e[1]) for e in sub]
+            ok = (self.matches(got, top) and self.same(again, top[2])
+                  and all(self.matches(g, e) for g, e in zip(before, sub))
+                  and all(self.matches(g, e) for g, e in zip(after, sub)))
         except Exception:  # noqa: BLE001
             ok = False
         if ok:
             return []
-        return self.diagnose(tree, pt, ev, ej, obs)
+        return self.diagnose(tree, pt, sub, top)
 
-    def diagnose(self, tree, pt, ev, ej, obs):
+    def diagnose(self, tree, pt, sub, top):
         """Attribute a disagreement to the innermost subtrees that disagree with the specification on a fresh
-        object graph, or that change the observations of their own operands."""
+        object graph, or whose evaluation changes the observations of the subtrees below them."""
         self.n_diag += 1
-        nodes = {}  # path -> (tree, point, exp_v, exp_j)
-        for o in obs:
-            nodes[tuple(o[0])] = (None, vec(o[1]), vec(o[2]), mat(o[3], len(o[1])))
-        nodes[()] = (None, array([float(c) for c in pt]), vec(ev), mat(ej, len(pt)))
+        by_path: dict[tuple, list] = {}
+        for e in [*sub, top]:
+            by_path.setdefault(e[0], []).append(e)
 
-        def sub(t, path):
+        def subtree(path):
+            t = tree
             for k in path:
                 t = t[1][k - 1]
             return t
 
-        bad = {}  # path -> list of (clause, extra, detail)
-        for path in sorted(nodes, key=lambda q: (-len(q), q)):
-            t = sub(tree, path)
-            _, x, want_v, want_j = nodes[path]
-            kid_paths = [path + (k + 1,) for k in range(len(t[1]))]
-            kid_exp = [nodes[q] for q in kid_paths]
+        def exc(clause, ex):
+            return (clause, {"exception": type(ex).__name__},
+                    {"exception": repr(ex), "traceback": traceback.format_exc(limit=4)})
+
+        bad = {}
+        for path in sorted(by_path, key=lambda q: (-len(q), q)):
+            t = subtree(path)
+            own = by_path[path]
+            below = [e for e in sub if len(e[0]) > len(path) and e[0][:len(path)] == path]
+            inner_blamed = any(len(q) > len(path) and q[:len(path)] == path for q in bad)
             problems = []
             node = None
             try:
                 node = self.build(t)
             except Exception as ex:  # noqa: BLE001
-                problems.append(("Build", {"exception": type(ex).__name__},
-                                 {"exception": repr(ex), "traceback": traceback.format_exc(limit=4)}))
+                problems.append(exc("Build", ex))
             if node is not None:
-                # (a) intrinsic value / Jacobian on a fresh object graph
-                try:
-                    v = np.atleast_1d(np.asarray(node.obj.evaluate(x.copy()), dtype=float)).ravel().copy()
-                    if not self.same(v, want_v):
-                        problems.append(("Value", {}, {"impl": v.tolist(), "spec": want_v.tolist()}))
-                except Exception as ex:  # noqa: BLE001
-                    problems.append(("Value", {"exception": type(ex).__name__},
-                                     {"exception": repr(ex), "traceback": traceback.format_exc(limit=4)}))
-                try:
-                    j = node.obj.jac(x.copy())
-                    j = np.atleast_2d(np.asarray(j.toarray() if hasattr(j, "toarray") else j, dtype=float)).copy()
-                    if not self.same(j, want_j):
-                        problems.append(("Jacobian", {"shape_ok": j.shape == want_j.shape},
-                                         {"impl": j.tolist(), "spec": want_j.tolist()}))
-                except Exception as ex:  # noqa: BLE001
-                    problems.append(("Jacobian", {"exception": type(ex).__name__},
-                                     {"exception": repr(ex), "traceback": traceback.format_exc(limit=4)}))
-                # (b) operands observed before / after the evaluation of this node (fresh graph)
-                if not any(q in bad for q in kid_paths) and kid_paths:
+                # (a) value / Jacobian of this subtree on a fresh object graph, at each point where it is used
+                for i, e in enumerate(own):
+                    if i:
+                        node = self.build(t)  # a fresh graph per point: (a) is about the first evaluation
+                    try:
+                        v = np.atleast_1d(np.asarray(node.obj.evaluate(e[1].copy()), dtype=float)).ravel().copy()
+                        if not self.same(v, e[2]):
+                            problems.append(("Value", {}, {"at": e[1].tolist(), "impl": v.tolist(), "spec": e[2].tolist()}))
+                    except Exception as ex:  # noqa: BLE001
+                        problems.append(exc("Value", ex))
+                    try:
+                        j = node.obj.jac(e[1].copy())
+                        j = np.atleast_2d(np.asarray(j.toarray() if hasattr(j, "toarray") else j, dtype=float)).copy()
+                        if not self.same(j, e[3]):
+                            problems.append(("Jacobian", {"shape_ok": j.shape == e[3].shape},
+                                             {"at": e[1].tolist(), "impl": j.tolist(), "spec": e[3].tolist()}))
+                    except Exception as ex:  # noqa: BLE001
+                        problems.append(exc("Jacobian", ex))
+                    if problems:
+                        break
+                # (b) the subtrees below, observed before / after the evaluation of this one (fresh graph)
+                if below and not inner_blamed:
                     try:
                         node2 = self.build(t)
-                        before = [self.observe(c, e[1]) for c, e in zip(node2.kids, kid_exp)]
-                        if all(self.same(b[0], e[2]) and self.same(b[1], e[3]) for b, e in zip(before, kid_exp)):
-                            node2.obj.evaluate(x.copy())
-                            node2.obj.jac(x.copy())
-                            node2.obj.evaluate(x.copy())
-                            after = [self.observe(c, e[1]) for c, e in zip(node2.kids, kid_exp)]
-                            for i, (a, e) in enumerate(zip(after, kid_exp)):
-                                if not (self.same(a[0], e[2]) and self.same(a[1], e[3])):
-                                    problems.append(("NoOperandMutation", {"operand": i},
-                                                     {"operand_value_after": a[0].tolist(), "spec": e[2].tolist(),
-                                                      "operand_jacobian_after": a[1].tolist(),
+                        rel = [(e[0][len(path):],) + e[1:] for e in below]
+                        before = [self.observe(self.node_at(node2, e[0]), e[1]) for e in rel]
+                        if all(self.matches(g, e) for g, e in zip(before, rel)):
+                            for own_e in own:
+                                node2.obj.evaluate(own_e[1].copy())
+                                node2.obj.jac(own_e[1].copy())
+                                node2.obj.evaluate(own_e[1].copy())
+                                after = [self.observe(self.node_at(node2, e[0]), e[1]) for e in rel]
+                                changed = [(g, e) for g, e in zip(after, rel) if not self.matches(g, e)]
+                                if changed:
+                                    g, e = changed[0]
+                                    problems.append(("NoOperandMutation", {"operand_depth": len(e[0])},
+                                                     {"operand": show(subtree(path + e[0])), "at": e[1].tolist(),
+                                                      "after_evaluation_at": own_e[1].tolist(),
+                                                      "operand_value_after": g[0].tolist(), "spec": e[2].tolist(),
+                                                      "operand_jacobian_after": g[1].tolist(),
                                                       "spec_jacobian": e[3].tolist()}))
                                     break
                     except Exception:  # noqa: BLE001
-                        pass  # already reported by (a) or by the operand's own diagnosis
-            if problems:
-                # innermost only: skip a node one of whose descendants is already blamed
-                if any(q[:len(path)] == path and q != path for q in bad):
-                    continue
-                bad[path] = (t, node, want_v, kid_exp, len(x), problems)
+                        pass  # reported by (a) or by the diagnosis of the subtree that raises
+            if problems and not inner_blamed:  # innermost only
+                kid_exp = [by_path[path + (k + 1,)][0] for k in range(len(t[1]))]
+                bad[path] = (t, node, own[0], kid_exp, problems)
         out = []
-        for path, (t, node, want_v, kid_vs, n, problems) in bad.items():
+        for path, (t, node, own0, kid_exp, problems) in bad.items():
             clause, extra, detail = problems[0]
-            sig = self.signature(clause, t, node, want_v, kid_vs, n, extra)
+            sig = self.signature(clause, t, node, own0[2], kid_exp, len(own0[1]), extra)
             out.append((clause, sig, dict(detail, instance=show(tree), point=list(pt), blamed_subtree=show(t),
                                           path=list(path), all_problems=[c for c, _, _ in problems])))
         if not out:
             # the instance failed as a whole although no subtree fails on a fresh graph: never hide it
-            t = tree
-            sig = {"clause": "Unattributed", "op": t[0]}
-            out.append(("Unattributed", sig, {"instance": show(tree), "point": list(pt)}))
+            out.append(("Unattributed", {"clause": "Unattributed", "op": tree[0]},
+                        {"instance": show(tree), "point": list(pt)}))
         return out
 
     def check_reject(self, tree):
